@@ -11,6 +11,7 @@
    CBMC mode: context / function / registers / string table are CONSTRUCTED DIRECTLY as static data; the insns are
    blocks from the slot allocator (typed 8-byte cells) filled in directly.  REPLAY mode: real MIR_init + API. */
 #define H_NO_LEDGER
+#define H_ERROR_PATH_WITNESS /* the final lookup of a dead temporary must reach the error callback */
 #define H_SLOT_ALLOC
 #ifndef H_SLOT_CAP
 #define H_SLOT_CAP 176
